@@ -123,6 +123,9 @@ func (d *DealBundle) Hash() ([]byte, error) {
 	}
 
 	for _, c := range d.Public {
+		if c == nil {
+			return nil, errors.New("dkg: nil public coefficient in deal bundle")
+		}
 		cbuff, err := c.MarshalBinary()
 		if err != nil {
 			return nil, err
@@ -256,6 +259,9 @@ func (j *JustificationBundle) Hash() ([]byte, error) {
 		err := binary.Write(h, binary.BigEndian, just.ShareIndex)
 		if err != nil {
 			return nil, err
+		}
+		if just.Share == nil {
+			return nil, errors.New("dkg: missing share in justification")
 		}
 		sbuff, err := just.Share.MarshalBinary()
 		if err != nil {
